@@ -5,16 +5,16 @@ def main(tier, args):
     t0 = time.time()
     exe = vf.build("C03/fdevents", [vf.VERIF + "/checks/C03/harness.cpp"], vf.module_sources("event"), mode="asan",
                    plain_srcs=[vf.VERIF + "/engine/sched/log_stub.cpp"])
-    depth, dl, chunk = (4, 80, 5) if tier == "quick" else (6, 1300, 3)
+    depth, dl, chunk = (4, 80, 7) if tier == "quick" else (7, 1300, 3)
     res = vf.Result(); log = open(vf.BUILD + "/C03/log.txt", "w")
     jobs = []
-    for cfg in (0, 1, 2):
+    for cfg in (0, 1, 2, 3, 4):
         for s in range(0, NSCRIPTS, chunk):
             jobs.append(("cfg%d:s%d" % (cfg, s), [exe, str(cfg), str(depth), str(s), str(s + chunk - 1)]))
     if args.only: jobs = [j for j in jobs if j[0] == args.only]
     vf.run_procs(res, jobs, env={"VERIF_DEADLINE_S": str(dl), "VERIF_WORKERS": "2"}, log=log, jobs=16)
     vf.finish(PID, tier, res, t0,
-              rule="BFS over all histories (depth %d) of enable/disable/feed/drain/pass on 3 configurations of 3 real FdEvents (shared descriptor, read/write/read|write masks, persistent and one-shot, pipes and a socketpair) x 34 callback scripts "
+              rule="BFS over all histories (depth %d) of enable/disable/feed/drain/pass on 5 configurations of 3 real FdEvents (shared descriptor, read/write/read|write masks, persistent and one-shot, pipes and a socketpair) x 34 callback scripts "
                    "(disable self; disable/enable/destroy another event on the same or on another descriptor ready in the same pass; destroy + create a new event on a third descriptor; destroy + close), "
                    "each history executed on BOTH back-ends in a forked child under ASan with per-fd records de-pooled; oracle: model-enabled at callback time, poll() snapshot readiness, one-shot disabled in callback, no exception, "
                    "isEnabled agrees, and epoll == select callbacks per pass for order-independent scripts" % depth,
